@@ -1108,9 +1108,74 @@ func (g *Gen) DDL() Stmt {
 	}
 }
 
-// Write generates one data-changing statement (weights: insert 50, update 25,
-// delete 10, ddl 15).
+// AfterOrderBy generates a write in which a random()/randomblob() call comes
+// AFTER an ORDER BY term in the rewriter's walk of the same statement, in a
+// position where its value is stored or decides which rows are touched:
+// INSERT..SELECT..ORDER BY..LIMIT n ON CONFLICT DO UPDATE SET c = random()
+// (selecting existing keys, so the conflict branch really runs), a LIMIT
+// expression after ORDER BY, an outer projection / WHERE after a sub-select
+// with ORDER BY in FROM(..) or EXISTS(..), a window function OVER (ORDER BY ..)
+// followed by random(), and RETURNING random() after INSERT..SELECT..ORDER BY.
+func (g *Gen) AfterOrderBy() Stmt {
+	c := g.newCtx("insert")
+	c.style = 0
+	r := g.R
+	c.feat("after-order-by")
+	rnd := func() string {
+		c.st.Calls++
+		c.st.ND++
+		c.feat("random")
+		return c.fname("random") + "()"
+	}
+	blob := func() string {
+		c.st.Calls++
+		c.st.ND++
+		c.feat("randomblob")
+		return c.fname("randomblob") + "(" + c.pick("4", "8", "16") + ")"
+	}
+	lim := 1 + r.Intn(3)
+	dir := c.pick("", " DESC", " ASC")
+	switch r.Intn(9) {
+	case 0:
+		c.st.Table = "t2"
+		c.feat("upsert")
+		return c.done(fmt.Sprintf(`INSERT INTO t2(k, n) SELECT k, n FROM t2 WHERE true ORDER BY id%s LIMIT %d ON CONFLICT(k) DO UPDATE SET "random" = %s, n = n + 1`, dir, lim, rnd()))
+	case 1:
+		c.st.Table = "t2"
+		c.feat("upsert")
+		return c.done(fmt.Sprintf(`INSERT INTO t2(k, n, "random") SELECT k, n, id FROM t2 WHERE id > 0 ORDER BY n%s, id LIMIT %d OFFSET %d ON CONFLICT(k) DO UPDATE SET "random" = abs(%s) %% 1000 WHERE excluded.n >= 0`, dir, lim, r.Intn(2), rnd()))
+	case 2:
+		c.st.Table = "t1"
+		return c.done(fmt.Sprintf(`INSERT INTO t1(a, b) SELECT a, b FROM t1 ORDER BY id%s LIMIT abs(%s) %% 3 + 1`, dir, rnd()))
+	case 3:
+		c.st.Table = "t1"
+		return c.done(fmt.Sprintf(`INSERT INTO t1(a, d) SELECT s.a, %s FROM (SELECT a FROM t1 ORDER BY id%s LIMIT %d) AS s`, blob(), dir, lim))
+	case 4:
+		c.st.Kind, c.st.Table = "delete", "t1"
+		return c.done(fmt.Sprintf(`DELETE FROM t1 WHERE EXISTS (SELECT 1 FROM t2 ORDER BY id%s LIMIT 1) AND abs(%s) %% 3 = id %% 3`, dir, rnd()))
+	case 5:
+		c.st.Kind, c.st.Table = "update", "t1"
+		return c.done(fmt.Sprintf(`UPDATE t1 SET b = 'w' WHERE id IN (SELECT id FROM t1 ORDER BY a%s, id LIMIT %d) OR abs(%s) %% 4 = id %% 4`, dir, lim, rnd()))
+	case 6:
+		c.st.Table = "t1"
+		c.feat("window")
+		return c.done(fmt.Sprintf(`INSERT INTO t1(a, c, d) SELECT row_number() OVER (ORDER BY id%s), %s / 7, %s FROM t2`, dir, rnd(), blob()))
+	case 7:
+		c.st.Table = "t1"
+		return c.done(fmt.Sprintf(`INSERT INTO t1(a) SELECT (SELECT n FROM t2 ORDER BY id%s LIMIT 1) + %s %% 1000`, dir, rnd()))
+	default:
+		c.st.Table = "ev"
+		c.feat("returning")
+		return c.done(fmt.Sprintf(`INSERT INTO ev(note) SELECT note FROM ev ORDER BY id%s LIMIT %d RETURNING id, %s`, dir, lim, rnd()))
+	}
+}
+
+// Write generates one data-changing statement (weights: insert 46, update 23,
+// delete 9, after-order-by shapes 8, ddl 14).
 func (g *Gen) Write() Stmt {
+	if !g.O.NoRand && g.R.Intn(100) < 8 {
+		return g.AfterOrderBy()
+	}
 	switch x := g.R.Intn(100); {
 	case x < 50:
 		return g.Insert()
@@ -1125,6 +1190,9 @@ func (g *Gen) Write() Stmt {
 
 // Any generates a statement of any kind (C14).
 func (g *Gen) Any() Stmt {
+	if !g.O.NoRand && g.R.Intn(100) < 6 {
+		return g.AfterOrderBy()
+	}
 	switch x := g.R.Intn(100); {
 	case x < 40:
 		return g.Select()
